@@ -455,6 +455,11 @@ def check_index(case, ctx: Ctx):
         bdf = gen.bins_df(case["bt"])
         if case.get("useed", 0) % 2:
             bdf["chrom"] = bdf["chrom"].astype("category")      # categories in lexical order
+        # a third of the cases stores real-valued counts (every count scaled by 1/4: the total is not integral)
+        fl = case.get("useed", 0) % 3 == 0
+        if fl:
+            chunks = [[[r[0], r[1], r[2] * 0.25, *r[3:]] for r in c] for c in chunks]
+            kw["dtypes"] = {"count": np.dtype("float64")}
         call("create_cooler (small index blocks)", cooler.create_cooler, path, bdf,
              iter([pixel_frame(c) for c in chunks]), ordered=True, symmetric_upper=case["symmetric"], h5opts={"compression": None}, **kw)
     finally:
@@ -462,7 +467,15 @@ def check_index(case, ctx: Ctx):
     try:
         with h5py.File(path, "r") as f:
             probs = schema.validate(f["/"])
+            raw = {k: f.attrs[k] for k in ("nbins", "nchroms", "nnz", "sum", "bin-type", "storage-mode")}
         check(not probs, lambda: f"index block size {block}: {probs[:3]}")
+        # the recorded summary reads the same through the library's metadata query as in the file
+        info = call("Cooler.info", lambda: cooler.Cooler(path).info)
+        total = sum(r[2] for c in chunks for r in c)
+        for k, v in raw.items():
+            v = v.decode() if isinstance(v, bytes) else v
+            check(info.get(k) == v, lambda: f"Cooler.info[{k!r}] = {info.get(k)!r}, the file records {v!r}")
+        check(info["sum"] == total, lambda: f"Cooler.info['sum'] = {info['sum']!r}, the stored {'real-valued ' if fl else ''}counts add up to {total!r}")
     finally:
         ctx.clean(path)
     b1 = [r[0] for r in case["rows"]]
